@@ -91,6 +91,12 @@ def run(c, facts, tier):
                 missing = [i for i in range(len(fn.params)) if "@%d" % i not in key]
                 c.ob("C10.key", "%s::%s" % (M, meth), "printer key contains destination and terminator", not missing, "key %s; parameters missing: %s" % (key, [fn.params[i][0] for i in missing]), witness="-fprint a -fprint0 a" if missing else None)
             c.ob("C10.key", "%s::%s" % (M, meth), "a printer is registered under a key", bool(keys), "keys: %s" % sorted(keys), nontrivial=False)
+            if M == framed:
+                # the key *is* the table entry reported to the caller: it must carry the request's own values, not a
+                # function of them (an escaped or normalised file name is not the destination that was asked for)
+                for key in keys:
+                    stripped = re.sub(r'Target::(File|Stdout)|"\{@\d+\}"|@\d+|[(),\s]', "", key)
+                    c.ob("C10.key", "%s::%s" % (M, meth), "the table entry names the destination and terminator as given", stripped == "", "table key %s%s" % (key, "" if stripped == "" else " — contains a derived value (%s): the entry no longer names the destination of the action" % stripped[:60]), witness="-fprint 'a\"b'" if stripped else None)
             for p in ps:
                 for fld, kv in p.inserts:
                     c.ob("C10.key", "%s::%s" % (M, meth), "%s lookup key = insertion key [%s]" % (fld, (p.cond or "")[:50]), kv[0] in p.cond, "inserted under %s" % kv[0], nontrivial=False)
